@@ -508,9 +508,13 @@ func (w *world) reload(op WOp) {
 	switch {
 	case rec.weight == 0 || root == nil:
 		w.t = wmpt.New(nil, w.db)
-	// (not generated: a trie rooted at the public shallow Node.Copy() of a branch. Its short-node children are bare
-	// hash references, a shape the library never builds itself; on the unchanged tree an export from such a trie
-	// already loses the embedded short nodes and mirrored deletes diverge - see DESIGN.md 16.4)
+	case op.N%16 == 15 && !w.has("C12") && !w.has("C10"):
+		// a trie rooted at the public shallow Node.Copy() of the root: its short-node children are bare hash
+		// references, a shape the library never builds itself. Weights, owners, roots, recovery and rollback hold
+		// on such tries on the unchanged tree (C09, C11, C13). Not generated for C12: an EXPORT from such a trie
+		// already loses the embedded short nodes there and mirrored deletes diverge - see DESIGN.md 16.4
+		w.guard("Copy", func() { w.t = wmpt.New(root.Copy(), w.db) })
+		w.stats.Inc("probe.reload-from-root-copy")
 	case op.N%4 >= 2:
 		w.guard("CopyRoot", func() { w.t = wmpt.New(w.t.CopyRoot((op.N/4)%4), w.db) })
 		w.stats.Inc("probe.reload-from-copyroot")
